@@ -37,9 +37,11 @@
 (* configuration every known primitive must show its capability through    *)
 (* the canaries, else the probes are blind.                                *)
 (***************************************************************************)
-EXTENDS Integers, Sequences, FiniteSets, TLC
+EXTENDS Integers, Sequences, FiniteSets, TLC, Json, IOUtils
 
-CONSTANT U          \* the universe record (see above)
+(* the universe record (see above), read once: a plain constant definition  *)
+(* is evaluated by TLC a single time (a cfg substitution U <- ... is not)   *)
+U == ndJsonDeserialize(IOEnv.VERIF_UNIVERSE)[1]
 
 Caps == {"file-read", "file-write", "exec", "env-read", "env-write", "exit"}
 CapSeq == <<"file-read", "file-write", "exec", "env-read", "env-write", "exit">>
@@ -79,7 +81,7 @@ Routes == {U.routes[k] : k \in 1..Len(U.routes)}
 NameOf(i) == U.names[i].n
 KindOf(c, i) == U.names[i].kind[c]
 NameSet == {NameOf(i) : i \in NameIx}
-IxMap == [n \in NameSet |-> CHOOSE i \in NameIx : NameOf(i) = n]
+IxMap == TLCEval([n \in NameSet |-> CHOOSE i \in NameIx : NameOf(i) = n])
 HasName(n) == n \in NameSet
 Ix(n) == IxMap[n]
 
@@ -101,7 +103,7 @@ Needs(r) ==
       [] OTHER         -> {}
 
 (* (a table, so that TLC computes it once) *)
-RouteEnabled == [c \in CfgIx |-> [r \in Routes |-> \A m \in Needs(r) : CallableN(c, m)]]
+RouteEnabled == TLCEval([c \in CfgIx |-> [r \in Routes |-> \A m \in Needs(r) : CallableN(c, m)]])
 
 RouteOK(c, i, r) ==
     /\ RouteEnabled[c][r]
@@ -119,8 +121,9 @@ BaseCap(c, i) ==
 (* capability of a derived handle: a derivation neither adds nor removes capability *)
 CapOf(c, i, route) == IF Live(c, i, route) THEN BaseCap(c, i) ELSE {}
 
-Candidates(c) == UNION {BaseCap(c, i) : i \in {i \in NameIx : Callable(c, i)}}
 CandidateNames(c) == {i \in NameIx : Callable(c, i) /\ BaseCap(c, i) # {}}
+CandTab == TLCEval([c \in CfgIx |-> UNION {BaseCap(c, i) : i \in CandidateNames(c)}])
+Candidates(c) == CandTab[c]
 
 -----------------------------------------------------------------------------
 (* The derivation closure as a state machine: a script picks a name, wraps  *)
